@@ -36,6 +36,11 @@ def _run(prop, repo, tier):
 
         cas.append(analyse_class(repo, by_name[n]))
     check_wire(prop, res, repo, cas)
+    # the state a formula carries lives in helper series: they must be the instance's own (named after it), or a second instance of
+    # the class feeds on this one's state
+    from .c13 import check_namespace
+
+    check_namespace(prop, res, repo, cas)
     # the formulas are compared relative to the accessor summaries; the summaries are contracts of the helpers
     from ..contracts import check_all
     from ..driver import check_round_by
@@ -57,6 +62,14 @@ def _run(prop, repo, tier):
 
     check_hexital_purge(prop, res, repo)
     check_registry_order(prop, res, repo)
+    # inputs (price fields, derived candle measures, other indicators' readings, dotted dict fields) all come through one resolver
+    from .c20 import check_resolver_shape
+
+    check_resolver_shape(res, repo, prop=prop)
+    # 'position independent': after an append every indicator resumes through calculate() (which back-fills whatever is missing)
+    from ..driver import check_append_order
+
+    check_append_order(prop, res, repo, parts=("indicator", "hexital"))
     res.universe = {"classes": GROUPS[prop]}
     return res, cas
 
